@@ -59,6 +59,7 @@ fn write_cases(prop: &str, cases: &[Case], shards: usize, out: &str) {
 }
 
 fn main() {
+    common::limit_memory();
     let args: Vec<String> = std::env::args().collect();
     let get = |name: &str, def: &str| -> String {
         args.iter().position(|a| a == name).and_then(|i| args.get(i + 1)).cloned().unwrap_or(def.to_string())
